@@ -287,6 +287,79 @@ def structured_checks(x, rnd, tier):
         r = x.call("btokCVCUnwrap", x.zero(sz), x.buf(cert), len(cert), None, 0)
         if r:
             bad.append("btokCVCUnwrap (no key) rejects a certificate produced by btokCVCWrap with a %d-octet key: error %d" % (dlen, r))
+    # (1b) every configuration of the optional certificate fields (access templates of eId / eSign absent, present, partly zero) and name lengths: the decoded
+    # structure carries the encoded content, and encoding the decoded structure under the same key gives the same octets (signatures are deterministic)
+    c17 = __import__("props.c17", fromlist=["x"])
+    for dlen in (24, 32, 48, 64):
+        for hc in ("zero", "full", "ff", "eid", "esign", "partly", "partly2"):
+            x.reset()
+            sd = "%d%s%d" % (dlen, hc, rnd.randrange(1 << 16))
+            priv = c17.privkey(dlen, "rnd", sd)
+            nm = c17.mkname(sd + "n", rnd.choice((8, 9, 11, 12)), "alnum")
+            f = rnd.randrange(0, c17.MAXO - 400)
+            cv = c17.Cvc(x)
+            cv.fill(nm, nm, c17.digits(f), c17.digits(f + rnd.randrange(0, 400)), c17.hat_of(hc, sd))
+            try:
+                r, cert = c17.wrap(x, cv, priv)
+            except Fail as e:
+                bad.append(str(e)); continue
+            if r:
+                bad.append("btokCVCWrap refuses a valid content (key length %d, access templates '%s'): error %d" % (dlen, hc, r)); continue
+            ev += 1
+            want = c17.content(cv.get())
+            r, dec = c17.unwrap(x, cert)
+            got = c17.content(dec.get()) if r == 0 else None
+            if r or got != want:
+                bad.append("btokCVCUnwrap of a certificate made by btokCVCWrap (key length %d, access templates '%s' eid=%s esign=%s): %s" %
+                           (dlen, hc, want[6].hex(), want[7].hex(), "error %d" % r if r else "decoded content differs: eid=%s esign=%s" % (got[6].hex(), got[7].hex())))
+                continue
+            acc += 1
+            try:
+                r, cert2 = c17.wrap(x, dec, priv)
+            except Fail as e:
+                bad.append(str(e)); continue
+            if r or cert2 != cert:
+                bad.append("btokCVCWrap of the structure btokCVCUnwrap decoded does not reproduce the accepted certificate (key length %d, access templates '%s')" % (dlen, hc))
+    # (1c) protected commands / responses at the largest data fields that fit the extended length fields: what the wrapper emits (if it does not refuse)
+    # is decoded by the peer to the wrapped command / response
+    key = bytes((5 * i + 1) % 256 for i in range(32))
+    lim = [(65516, 0), (65517, 0), (65517, 1), (65517, 256), (65518, 1), (65520, 0), (65521, 0), (65521, 65536), (65522, 0), (65535, 0), (65535, 1)]
+    for n, le in (lim if tier != "quick" else [lim[i] for i in (1, 2, 6, 7)] + [lim[rnd.randrange(len(lim))]]) + [(rnd.randrange(0, 600), rnd.choice((0, 1, 256, 65536))) for _ in range(6)]:
+        x.reset()
+        A, B = c17.Side(x, key), c17.Side(x, key)
+        A.inc(); B.inc()
+        cdf = bytes((i * 13 + n) % 256 for i in range(n))
+        hdr = bytes([0x00, 0xA4, 0x04, 0x04])
+        try:
+            r0, cnt, r, apdu = c17.sm_wrap(x, "cmd", c17.mk_cmd(x, hdr, le, cdf), A.st)
+            if r0 or r:
+                continue
+            ev += 1
+            q0, q, dec = c17.sm_unwrap(x, "cmd", apdu, B.st)
+        except Fail as e:
+            bad.append(str(e)); continue
+        if q or dec != (hdr, le, cdf):
+            bad.append("btokSMCmdUnwrap of a command protected by btokSMCmdWrap (cdf_len %d, rdf_len %d, %d octets): %s" %
+                       (n, le, len(apdu), "error %d" % q if q else "decoded command differs (rdf_len %s, cdf_len %d)" % (dec[1], len(dec[2]))))
+            continue
+        acc += 1
+    for n in ((65535, 65536) if tier != "quick" else (65536,)) + tuple(rnd.randrange(0, 600) for _ in range(4)):
+        x.reset()
+        A, B = c17.Side(x, key), c17.Side(x, key)
+        A.inc(2); B.inc(2)
+        rdf = bytes((i * 11 + n) % 256 for i in range(n))
+        try:
+            r0, cnt, r, apdu = c17.sm_wrap(x, "resp", c17.mk_resp(x, b"\x90\x00", rdf), A.st)
+            if r0 or r:
+                continue
+            ev += 1
+            q0, q, dec = c17.sm_unwrap(x, "resp", apdu, B.st)
+        except Fail as e:
+            bad.append(str(e)); continue
+        if q or dec != (b"\x90\x00", rdf):
+            bad.append("btokSMRespUnwrap of a response protected by btokSMRespWrap (rdf_len %d): %s" % (n, "error %d" % q if q else "decoded response differs"))
+            continue
+        acc += 1
     pwd, salt = b"zed", bytes(range(8))
     for W, U, lens in (("bpkiPrivkeyWrap", "bpkiPrivkeyUnwrap", (24, 32, 48, 64)), ("bpkiShareWrap", "bpkiShareUnwrap", (17, 25, 33))):
         for ln in lens:
